@@ -41,6 +41,7 @@ struct ScriptOpts {
     int maxSetPoints = 400, maxRelStates = 20;
     bool allowChurn = true, allowFile = true, allowRelations = true;
     int forceValueKind = -1;
+    bool wideShapes = false; // one script in six over a shape with a 10..40-valued variable (randomShapeW)
     int rebuildBoost = 0;   // extra percentage of steps that rebuild an existing function along another route (C01)
 };
 
@@ -55,7 +56,8 @@ static inline bool tableBounded(const Table& t, double lim) {
 static inline Script genScript(Rng& r, const ScriptOpts& o) {
     Script S;
     S.rel = o.allowRelations && r.chance(2, 5);
-    S.shape = S.rel ? randomShape(r, 1, 3, 4, o.maxRelStates) : randomShape(r, 1, 5, 5, o.maxSetPoints);
+    if (o.wideShapes) S.shape = S.rel ? randomShapeW(r, 1, 3, 4, o.maxRelStates) : randomShapeW(r, 1, 5, 5, o.maxSetPoints);
+    else S.shape = S.rel ? randomShape(r, 1, 3, 4, o.maxRelStates) : randomShape(r, 1, 5, 5, o.maxSetPoints);
     S.valueKind = o.forceValueKind >= 0 ? o.forceValueKind : int(r.below(4));
     World wm; wm.shape = wm.shapeP = S.shape; wm.N = wm.NP = S.shape.npoints();   // model-only world (no domain)
     std::vector<reduction_rule> rules = {reduction_rule::FULLY_REDUCED, reduction_rule::QUASI_REDUCED};
